@@ -28,6 +28,15 @@ impl DestructTuple {
         let pair = inner.next().unwrap();
         let instruction = InstructionWithStr::new(pair, local_variables)?;
         let return_type = instruction.return_type();
+        if return_type == Type::Never {
+            // an expression of type `!` never yields a value: every name gets the type `!`
+            let result = Self {
+                idents,
+                instruction,
+            };
+            result.insert_local_variables(local_variables);
+            return Ok(result.into());
+        }
         if !return_type.is_tuple() {
             return Err(Error::NotATuple(instruction.str));
         }
@@ -58,10 +67,16 @@ impl DestructTuple {
                 self.idents.iter().cloned(),
                 elements.iter().map(|ins| &ins.instruction),
             )),
-            instruction => {
-                let types = instruction.return_type().flatten_tuple().unwrap();
-                local_variables.extend(zip(self.idents.iter().cloned(), types.iter().cloned()))
-            }
+            instruction => match instruction.return_type().flatten_tuple() {
+                Some(types) => {
+                    local_variables.extend(zip(self.idents.iter().cloned(), types.iter().cloned()))
+                }
+                // `!`: the expression never yields a tuple to take apart
+                None => local_variables.extend(zip(
+                    self.idents.iter().cloned(),
+                    std::iter::repeat(Type::Never),
+                )),
+            },
         }
     }
 }
